@@ -57,7 +57,7 @@ RULE = ('addresses are built from integers (col,row,col,row)+sheet and compared 
         'offsets (none, single wrap, multiple wraps) + sampled. A case is one address (x form), one location x '
         'anchor, one rectangle, one ordered pair, one triple or one (cell, offset); every case is distinct by '
         'construction in the enumerated parts and by signature in the sampled parts.')
-BUDGET = {'quick': 25, 'thorough': 200}
+BUDGET = {'quick': 25, 'thorough': 300}
 EXHAUSTIVE = {'quick': False, 'thorough': True}
 FLOORS = {
     # derived from the enumerated parts (exact there) or >= 5x below what the sampled loops add
@@ -74,13 +74,13 @@ FLOORS = {
               'triple_cases': 200000, 'triple_null_intermediate': 100000, 'triple_mixed_sheet_cases': 800,
               'large_pair_cases': 400, 'large_triple_cases': 400,
               'offset_cases': 13000, 'offset:wrap-col': 1500, 'offset:wrap-row': 1500, 'offset:multi-wrap': 3000},
-    'thorough': {'roundtrip_cases': 100000, 'roundtrip_bang_cases': 2086, 'notation_cases': 40000,
-                 'notation_relative_wrap_texts': 400000, 'notation_corner_neighbourhood': 1764,
-                 'enum_cases': 3000, 'pair_cases': 70000, 'pair_sheet_mismatch': 10000,
+    'thorough': {'roundtrip_cases': 60000, 'roundtrip_bang_cases': 2086, 'notation_cases': 27000,
+                 'notation_relative_wrap_texts': 200000, 'notation_corner_neighbourhood': 1764,
+                 'enum_cases': 2000, 'pair_cases': 70000, 'pair_sheet_mismatch': 10000,
                  'pair_sheet_adoption': 30000, 'pair_idempotence': 600,
                  'triple_cases': 1000000, 'triple_null_intermediate': 500000,
-                 'triple_mixed_sheet_cases': 80000, 'large_pair_cases': 40000, 'large_triple_cases': 40000,
-                 'offset_cases': 70000},
+                 'triple_mixed_sheet_cases': 40000, 'large_pair_cases': 15000, 'large_triple_cases': 15000,
+                 'offset_cases': 50000},
 }
 ASSUMPTIONS = [
     'equality of addresses is Python equality of the pycel objects plus equality of the projection '
@@ -93,8 +93,8 @@ ASSUMPTIONS = [
 SAMPLED = {   # totals over all shards (independent of the number of shards)
     'quick': {'roundtrip': 4000, 'notation': 3000, 'enum': 300, 'offset': 4000, 'mixed_triples': 4000,
               'large': 4000},
-    'thorough': {'roundtrip': 400000, 'notation': 200000, 'enum': 16000, 'offset': 300000,
-                 'mixed_triples': 400000, 'large': 400000},
+    'thorough': {'roundtrip': 200000, 'notation': 100000, 'enum': 8000, 'offset': 200000,
+                 'mixed_triples': 200000, 'large': 200000},
 }
 
 _P = None
@@ -727,7 +727,7 @@ def check_pair(ctx, case):
         g2 = attempt(apply_op, op, B, A)
         ctx.count('pair_ops', 2)
         for expr, got in ((f'a {op} b', g1), (f'b {op} a', g2)):
-            prob = result_problem(got, want)
+            prob = result_problem(got, want, check_print=got is g1)
             if prob:
                 found.append((key_for(op, prob[0]), f'{expr} with a={a!r} b={b!r}: {prob[1]}, expected {want!r}'))
         if g1[0] == 'v' and g2[0] == 'v' and not (g1[1] == g2[1]):
@@ -772,6 +772,12 @@ def check_pair(ctx, case):
         if key not in seen:
             seen.add(key)
             ctx.violation(key, msg, case)
+
+
+def well_documented(ctx, key):
+    """the sink already holds its quota of written-out cases for this key (it only counts further ones)"""
+    v = ctx.violations.get(key)
+    return v is not None and len(v['cases']) >= ctx.MAX_CASES_PER_KEY
 
 
 def eval_nested(op, A, B, C, left):
@@ -826,6 +832,9 @@ def check_triple(ctx, case, objs=None):
                 key = f'{name}/error-operand-result'
             else:
                 key = f'{name}/associativity'
+            if well_documented(ctx, key):
+                bad.append((key, ''))
+                continue
             bad.append((key, f'{expr} with a={a!r} b={b!r} c={c!r}: {detail}; expected '
                              f'{" or ".join(repr(w) for w in accept)} (the other order gives '
                              f'{show(got_r if got is got_l else got_l)})'))
@@ -840,6 +849,22 @@ def check_triple(ctx, case, objs=None):
 
 
 # ----------------------------------------------------------------------------- the workload
+
+DIRECTED_TRIPLES = [
+    (('S', 1, 1, 2, 2), ('S', 3, 3, 4, 4), ('S', 3, 3, 3, 3)),      # (a & b) is #NULL!, a & (b & c) too
+    (('S', 1, 1, 1, 1), ('S', 1, 1, 2, 2), ('S', 3, 3, 4, 4)),      # (b & c) is #NULL!
+    (('S', 1, 1, 2, 2), ('T', 1, 1, 2, 2), ('T', 2, 2, 3, 3)),      # (a op b) is #VALUE!
+    (('', 1, 1, 2, 2), ('S', 2, 2, 3, 3), ('', 2, 1, 2, 4)),        # sheet adoption through both orders
+]
+
+
+def part_directed(ctx):
+    """a few hand-sized triples first, so that the written-out witnesses are small ones"""
+    for a, b, c in DIRECTED_TRIPLES:
+        ctx.count('directed_triples')
+        check_triple(ctx, {'kind': 'triple', 'a': list(a), 'b': list(b), 'c': list(c)})
+        ctx.case(('t3',) + a + b + c)
+
 
 def part_roundtrip(ctx):
     rects = boundary_rects()
@@ -1068,9 +1093,10 @@ def part_large(ctx):
         def pick():
             q = rng.random()
             return base if q < 0.75 else '' if q < 0.9 else other
-        if i % 2:
+        if rng.random() < 0.5:
             ra, rb = related_rects(rng, 2)
-            case = {'kind': 'pair', 'a': [pick()] + list(ra), 'b': [pick()] + list(rb), 'strings': i % 3 == 0}
+            case = {'kind': 'pair', 'a': [pick()] + list(ra), 'b': [pick()] + list(rb),
+                    'strings': rng.random() < 0.3}
             ctx.count('large_pair_cases')
             check_pair(ctx, case)
             ctx.case(('lp',) + tuple(case['a']) + tuple(case['b']))
@@ -1089,16 +1115,18 @@ CHECKS = {'roundtrip': check_roundtrip, 'notation': check_notation, 'enum': chec
 
 
 def run(ctx):
-    # sampled loops are bounded by count (SAMPLED) and only cut short by the budget; the enumerations are
-    # sized to finish well inside it (thorough: ~1 min per shard on 16 shards)
+    # sampled loops are bounded by count (SAMPLED) and only cut short by the budget; the two big
+    # enumerations come last and do not look at the clock (they are sized to finish: 70 k pairs, 1 M triples)
+    if ctx.shard == 0:
+        part_directed(ctx)
     part_roundtrip(ctx)
     part_notation(ctx)
     part_enum(ctx)
     part_offsets(ctx)
-    part_pairs(ctx)
-    part_triples(ctx)
     part_mixed_triples(ctx)
     part_large(ctx)
+    part_pairs(ctx)
+    part_triples(ctx)
 
 
 def replay(ctx, case):
